@@ -1,5 +1,6 @@
 import CookModel.Lemmas.SpansDoc
 import CookModel.Lemmas.SpansFront
+import CookModel.Lemmas.SpansMeta
 import CookModel.Lemmas.Blocks
 import CookModel.Lemmas.ClosingStream
 /-
@@ -564,5 +565,64 @@ theorem pullEvents_srcOrderedF (cs : CharSpec) (ext : Ext) (input : List Char) :
     subst hsa
     rw [(hl x hx).srcSpanF] at hsb
     exact Nat.le_trans hstop (hlow x (List.mem_cons_of_mem _ hx) sb hsb)
+
+/-! ### the metadata-only stream -/
+
+theorem orderF_runMetaBlock_notFM (cs : CharSpec) (ext : Ext) (b : List Tok)
+    (evs : Array (Ev α)) (panic : Option String) (h : AllQ Ev.notFM evs) :
+    AllQ Ev.notFM (runMetaBlock cs ext b evs panic).1 := by
+  have key : Keeps (AllQ (Ev.notFM (α := α))) (do
+      if b.isEmpty then panicWith "BlockParser::new: empty tokens"
+      match ← metadataEntry (α := α) with
+      | some ev =>
+        pushEv ev
+        let s ← get
+        if s.cur ≠ s.toks.length then panicWith "Block tokens not parsed"
+      | none => pure ()) (fun _ => True) := by
+    have hm := closing_metadataEntry_keeps (α := α) (I := AllQ Ev.notFM)
+    have tail : Keeps (AllQ (Ev.notFM (α := α))) (do
+        match ← metadataEntry (α := α) with
+        | some ev =>
+          pushEv ev
+          let s ← get
+          if s.cur ≠ s.toks.length then panicWith "Block tokens not parsed"
+        | none => pure ()) (fun _ => True) := by
+      refine Keeps.bind hm (fun r hr => ?_)
+      split
+      · rename_i ev
+        obtain ⟨k, v, rfl⟩ := hr ev rfl
+        have : Keeps (AllQ (Ev.notFM (α := α))) (pushEv (.metadata k v)) (fun _ => True) :=
+          Keeps.pushEv (fun _ h => h.push trivial)
+        keeps
+      · exact Keeps.pure trivial
+    dsimp only
+    split
+    · exact Keeps.bind (Keeps.panicWith _) (fun _ _ => tail)
+    · exact tail
+  exact (key.run ⟨b, 0, ext, cs, evs, panic⟩ h).1
+
+/-- the same for the metadata-only scanner (`into_meta_iter`): the front-matter event alone, or the `>>`
+    entries in source order -/
+theorem pullMetaEvents_srcOrderedF (cs : CharSpec) (ext : Ext) (input : List Char) :
+    SrcOrderedF (pullMetaEvents (α := α) cs ext input).1.toList := by
+  obtain ⟨b, hb⟩ := pullMetaEvents_topInv (α := α) cs ext input
+  have hord := hb.ord
+  unfold pullMetaEvents at hord ⊢
+  cases hp : parseFrontmatter cs input with
+  | some fm => simp [SrcOrderedF]
+  | none =>
+    rw [hp] at hord
+    simp only at hord ⊢
+    refine srcOrderedF_of_notFM ?_ hord
+    have : ∀ (blocks : List (List Tok)) (acc : Array (Ev α) × Option String), AllQ Ev.notFM acc.1 →
+        AllQ Ev.notFM (blocks.foldl (fun acc b => runMetaBlock (α := α) cs ext b acc.1 acc.2) acc).1 := by
+      intro blocks
+      induction blocks with
+      | nil => intro acc h; exact h
+      | cons b bs ih =>
+        intro acc h
+        rw [List.foldl_cons]
+        exact ih _ (orderF_runMetaBlock_notFM cs ext b acc.1 acc.2 h)
+    exact this _ _ (fun ev hev => by simp at hev)
 
 end Cook
